@@ -40,7 +40,9 @@ ElemChecks(e, c, X, n) ==
   LET g == e.g
       np1 == RFromInt(n + 1)
       isd == e.sc = "d"
-  IN IF ~FinV(c) THEN Fail("C15.finite", "non-finite", "finite")
+  IN IF ~FinV(c)
+     \* "finite" presumes a representable result: a scaling group (C1) multiplied up beyond 1e300 overflows by necessity
+     THEN (IF RLeq(Dec(1, 300), MaxAbs(X)) THEN <<>> ELSE Fail("C15.finite", "non-finite", "finite"))
      ELSE LET cv == V(c)
               u == GUnitResiduals(g, cv)
               qw == SO3Qw(g, cv)
